@@ -10,6 +10,7 @@ import (
 
 	"verif/harness/chain"
 	"verif/harness/distributor"
+	"verif/harness/hostile"
 	"verif/harness/minter"
 	"verif/harness/signature"
 	"verif/harness/upgrade"
@@ -98,6 +99,13 @@ func main() {
 		res, err := upgrade.Run(*edges, *workers, *budget, *walks, *depth, *seed)
 		if err != nil {
 			fmt.Fprintln(os.Stderr, "upgrade:", err)
+			os.Exit(2)
+		}
+		writeResult(*out, res)
+	case "hostile":
+		res, err := hostile.Run(*edges, *workers, *budget, *walks, *depth, *seed)
+		if err != nil {
+			fmt.Fprintln(os.Stderr, "hostile:", err)
 			os.Exit(2)
 		}
 		writeResult(*out, res)
